@@ -290,7 +290,21 @@ class BuiltinMixin:
         return zbool(z3.And([self.truthy(st, x) for x in items] or [z3.BoolVal(True)]))
 
     def bi_sum(self, st, a, k):
-        items = self.concrete_items(st, self.force(st, a[0]))
+        src = self.force(st, a[0]) if not st.spec else a[0]
+        items = self.concrete_items(st, src)
+        if items is None and isinstance(src, Z) and src.t.kind == "seq" and src.t.args[0].kind == "int" and len(a) == 1 \
+                and "py_sum" in self.specs:
+            if not st.spec and st.frames:
+                # ghost lemma calls placed before this builtin by the caller's contract: lemma_before("sum", lemma(ARG0, ...))
+                cc = getattr(st.frame, "contract", None)
+                for le in ((cc.options.get("lemma_before") or {}).get("sum", []) if cc is not None else []):
+                    st.frame.env["ARG0"] = src
+                    try:
+                        self.ev(st, le)
+                    finally:
+                        st.frame.env.pop("ARG0", None)
+            # builtin sum over a list = the recursive sum py_sum of spec/builtins.py
+            return self.call_spec(st, self.specs["py_sum"], [src, zint(z3.Length(src.e))], {})
         if items is None:
             raise OutsideSubset("sum over symbolic data")
         return zint(z3.Sum([self.as_int(st, x) for x in items]) if items else z3.IntVal(0))
